@@ -8,7 +8,8 @@
       remove the file's token from the map UNCONDITIONALLY (even if it is a newer task's token) },
       cancelled => {} };  select! may take the timer branch although the token is cancelled as well;
     - didOpen / didChange (inline on the main loop): analysis.write(): new text; then add_diagnostic_task;
-    - didClose of a file that is not on disk / watched-file delete: analysis.write(): remove; then publish [];
+    - didClose of a file that is not on disk / watched-file delete: analysis.write(): remove; then publish []
+      (in that order when [clear_last] = true, which Gen/C30_Order.v re-reads from the source);
     - workspace diagnostics (push_workspace_diagnostic and friends): publish diag(current text) of any file
       under analysis.read(), at any time.
     A publish happens while the read lock is held, so it is atomic with reading the text; [diag] is abstract. *)
@@ -27,6 +28,10 @@ Section Sys.
   Variable ds : Type.               (* a published set of diagnostics *)
   Variable diag : text -> ds.       (* diagnosis of a text *)
   Variable empty : ds.
+  (** is the empty publish for a removed file sent AFTER the removal from the analysis (true: what convergence
+      needs -- every diagnosis still in flight has published by then), or before it (false)?  Read off the
+      statement order in the source on every run: Gen/C30_Order.v *)
+  Variable clear_last : bool.
 
   Record st := mkSt {
     an : uri -> option text;        (* text held by the analysis *)
@@ -49,19 +54,29 @@ Section Sys.
     | Some i => map (fun k => if Nat.eqb (tk_id k) i then mkTask (tk_id k) (tk_uri k) true (tk_fired k) else k) l
     end.
 
+  Definition rm_step1 (s : st) (u : uri) (q : list event) : st :=
+    if clear_last
+    then mkSt (upd (an s) u None) (pub s) (tokens s) (tasks s) (next s) q (Some (ERemove u))
+    else mkSt (an s) (upd (pub s) u (Some empty)) (tokens s) (tasks s) (next s) q (Some (ERemove u)).
+
+  Definition rm_step2 (s : st) (u : uri) : st :=
+    if clear_last
+    then mkSt (an s) (upd (pub s) u (Some empty)) (tokens s) (tasks s) (next s) (queue s) None
+    else mkSt (upd (an s) u None) (pub s) (tokens s) (tasks s) (next s) (queue s) None.
+
   Inductive step : st -> st -> Prop :=
   (* section 1 of a handler: the analysis write *)
   | e_a_edit : forall s u t q, queue s = EEdit u t :: q -> mid s = None ->
       step s (mkSt (upd (an s) u (Some t)) (pub s) (tokens s) (tasks s) (next s) q (Some (EEdit u t)))
   | e_a_remove : forall s u q, queue s = ERemove u :: q -> mid s = None ->
-      step s (mkSt (upd (an s) u None) (pub s) (tokens s) (tasks s) (next s) q (Some (ERemove u)))
+      step s (rm_step1 s u q)
   (* section 2 *)
   | e_b_edit : forall s u t, mid s = Some (EEdit u t) ->
       step s (mkSt (an s) (pub s) (upd (tokens s) u (Some (next s)))
                    (mkTask (next s) u false false :: cancel_id (tokens s u) (tasks s))
                    (S (next s)) (queue s) None)
   | e_b_remove : forall s u, mid s = Some (ERemove u) ->
-      step s (mkSt (an s) (upd (pub s) u (Some empty)) (tokens s) (tasks s) (next s) (queue s) None)
+      step s (rm_step2 s u)
   (* a diagnostic task *)
   | t_fire : forall s l1 k l2, tasks s = l1 ++ k :: l2 -> tk_fired k = false ->
       step s (mkSt (an s) (pub s) (tokens s) (l1 ++ mkTask (tk_id k) (tk_uri k) (tk_cancelled k) true :: l2)
